@@ -3,6 +3,7 @@
   go/harness/c04_kinds.go.
 -/
 import SA.Model.Security
+import SA.Model.SecSpell
 namespace SA.Drv.SecKinds
 open SA SA.Handshake SA.Security
 
@@ -18,8 +19,29 @@ def techStr : Tech → String
 
 def b01 (b : Bool) : String := if b then "1" else "0"
 
+def firstStr : Option Bool → String
+  | none => "na" | some true => "tls" | some false => "plain"
+
+def spellOk (s : String) : Bool :=
+  s.toList.all (fun ch => (ch ≥ 'a' && ch ≤ 'z') || (ch ≥ '0' && ch ≤ '9') || ch == '+')
+
 def handle (toks : List String) : String :=
   match toks with
+  | ["spellings"] =>
+    -- the candidates of the harness (bases x {"", "+tls"}) are a superset of the regenerated switch, or this line differs
+    ",".intercalate ((SA.Schemes.keysOf (SA.Schemes.tableOf .upstream)).toArray.qsort (· < ·)).toList
+  | [sp, t, a, b, c, d] =>
+    if !spellOk sp then "bad-op" else
+    match bit? t, bit? a, bit? b, bit? c, bit? d with
+    | some stls, some scert, some must, some insecure, some ca =>
+      match cellSpell sp.toList stls scert must insecure ca with
+      | .badscheme => "badscheme"
+      | .noserver => "noserver"
+      | .refused => "refused"
+      | .est t s echo clear first =>
+        "est " ++ techStr t ++ " secure=" ++ b01 s ++ " echo=" ++ (if echo then "ok" else "fail") ++ " wire=" ++
+          (if sp.startsWith "dns" then "na" else if clear then "clear" else "opaque") ++ " first=" ++ firstStr first
+    | _, _, _, _, _ => "bad-op"
   | [scheme, a, b, c, d] =>
     if !schemes.contains scheme then "bad-op" else
     match bit? a, bit? b, bit? c, bit? d with
